@@ -210,6 +210,7 @@ pub fn pick_cfg(rng: &mut Rng, prop: &str, tier_thorough: bool) -> Cfg {
         hash_xor: 0,
         contract: None,
         adopt_alive: false,
+        blind: false,
         judge: None,
         log_level: 0,
         sweep_every: 0,
@@ -233,6 +234,8 @@ impl Gen {
             2 => 100_000,
             _ => 1,
         };
+        // half of those runs do not even ask keys() in between
+        cfg.blind = cfg.sweep_every > 1 && rng.chance(1, 2);
         // swarm: every kind keeps its base weight, is damped, or is switched off
         let mut base = base_weights(profile);
         if profile != prop {
